@@ -285,6 +285,74 @@ func (c *Ctx) foundIdx(v ssa.Value, id ssa.Value) bool {
 	return okAll && nFound > 0
 }
 
+// nonExhaustiveSelection: the element compared with id on edge (b,k) is a slice element whose
+// index is neither the induction variable of a loop over the slice nor the result of an
+// index-finder for this id (e.g. it comes from a binary search, which presumes an order the
+// store does not maintain). "" when the selection is exhaustive or of another shape.
+func (c *Ctx) nonExhaustiveSelection(b *ssa.BasicBlock, k int, id ssa.Value) string {
+	r, ok := eng.EdgeRel(b, k)
+	if !ok {
+		return ""
+	}
+	other := r.X
+	if derivesFrom(r.X, id, 0) {
+		other = r.Y
+	}
+	// other: load of a field of the element, or a getter call on it
+	var elem ssa.Value
+	switch x := eng.StripConv(other).(type) {
+	case *ssa.UnOp:
+		if fa, ok := x.X.(*ssa.FieldAddr); ok {
+			elem = fa.X
+		}
+	case *ssa.Call:
+		if x.Call.IsInvoke() {
+			elem = unwrapIface(x.Call.Value)
+		} else if len(x.Call.Args) > 0 {
+			elem = x.Call.Args[0]
+		}
+	}
+	if elem == nil {
+		return ""
+	}
+	u, ok := elem.(*ssa.UnOp)
+	if !ok || u.Op != token.MUL {
+		return ""
+	}
+	ia, ok := u.X.(*ssa.IndexAddr)
+	if !ok {
+		return ""
+	}
+	idx := eng.StripConv(ia.Index)
+	if c.foundIdx(idx, id) {
+		return ""
+	}
+	// induction variable: phi with an edge i+1 (or the i+1 itself in the rotated range form)
+	isInd := func(v ssa.Value) bool {
+		if bo, ok := v.(*ssa.BinOp); ok && bo.Op == token.ADD {
+			if k1, isC := eng.ConstInt(bo.Y); isC && k1 == 1 {
+				v = bo.X
+			}
+		}
+		ph, ok := v.(*ssa.Phi)
+		if !ok {
+			return false
+		}
+		for _, e := range ph.Edges {
+			if bo, ok := e.(*ssa.BinOp); ok && bo.Op == token.ADD && bo.X == ssa.Value(ph) {
+				if k1, isC := eng.ConstInt(bo.Y); isC && k1 == 1 {
+					return true
+				}
+			}
+		}
+		return false
+	}
+	if isInd(idx) {
+		return ""
+	}
+	return "the element compared with the id is selected by an index that is not a scan position (" + c.P.InstrPos(ia) + ")"
+}
+
 // foundWitness: ret is dominated by an id-equality edge or by `p != nil` with foundPtr(p).
 func (c *Ctx) foundWitness(ret *ssa.Return, id ssa.Value) (string, bool) {
 	fn := ret.Parent()
@@ -297,6 +365,9 @@ func (c *Ctx) foundWitness(ret *ssa.Return, id ssa.Value) (string, bool) {
 				continue
 			}
 			if idEqualityEdge(b, k, id) {
+				if why := c.nonExhaustiveSelection(b, k, id); why != "" {
+					continue // not a witness: see checkMutator's report of the return
+				}
 				return "id-equality branch at " + c.P.InstrPos(eng.IfOf(b)), true
 			}
 			r, ok := eng.EdgeRel(b, k)
@@ -446,6 +517,7 @@ func checkC07(c *Ctx) {
 	c.c07Mem(sm)
 	c.c07File(sm)
 	c.c07Latest()
+	c.c07Exhaustive()
 }
 
 func pkgFuncs(p *eng.Prog, rel string) []*ssa.Function {
@@ -796,4 +868,62 @@ func (c *Ctx) c07Latest() {
 		}
 	}
 	r.Floor("C07/LATEST", "branches on id == \"latest\" in the stores", n, 1)
+}
+
+// c07Exhaustive: a lookup by id that compares elements with the id must consider every
+// element (a scan, or a map lookup); a shortcut such as a binary search relies on an order
+// the stores do not maintain (file ids wrap every 10000 deliveries; the clock can step back).
+func (c *Ctx) c07Exhaustive() {
+	r, p := c.R, c.P
+	r.Rule("C07/FIND/exhaustive", "in the by-id operations of each store, an element compared with the requested id is selected by the position of a scan over the container (or by an index-finder that scans), never by a computed index")
+	n := 0
+	ord := map[string]int{}
+	for _, rel := range []string{"pkg/storage/mem", "pkg/storage/file"} {
+		var roots []*ssa.Function
+		for _, mn := range []string{"GetMessage", "MarkSeen", "RemoveMessage"} {
+			if fn := p.Method(rel, "Store", mn); fn != nil {
+				roots = append(roots, fn)
+			}
+		}
+		seen := map[*ssa.Function]bool{}
+		var fns []*ssa.Function
+		for _, rt := range roots {
+			for fn := range p.SyncReach(rt) {
+				if eng.FuncPkgPath(fn) == eng.Mod+"/"+rel && !seen[fn] {
+					seen[fn] = true
+					fns = append(fns, fn)
+				}
+			}
+		}
+		sortFuncs(fns)
+		for _, fn := range fns {
+			for _, prm := range fn.Params {
+				if b, ok := prm.Type().Underlying().(*types.Basic); !ok || b.Info()&types.IsString == 0 {
+					continue
+				}
+				for _, b := range fn.Blocks {
+					for k := 0; k < len(b.Succs) && len(b.Succs) == 2; k++ {
+						if !idEqualityEdge(b, k, prm) {
+							continue
+						}
+						er, _ := eng.EdgeRel(b, k)
+						if _, isC := eng.ConstString(er.X); isC {
+							continue
+						}
+						if _, isC := eng.ConstString(er.Y); isC {
+							continue // comparison with a literal such as "latest"
+						}
+						n++
+						cons := siteCons(p, eng.IfOf(b), ord, "compare-with:"+prm.Name())
+						if why := c.nonExhaustiveSelection(b, k, prm); why != "" {
+							r.Bad("C07/FIND/exhaustive", cons, p.InstrPos(eng.IfOf(b)), "%s: a live message whose position does not match the assumed order is reported as not existing while the listing still shows it", why)
+						} else {
+							r.Ok("C07/FIND/exhaustive", cons, p.InstrPos(eng.IfOf(b)), "element selected by a scan position")
+						}
+					}
+				}
+			}
+		}
+	}
+	r.Floor("C07/FIND/exhaustive", "element-vs-id comparisons in the stores", n, 1)
 }
